@@ -18,8 +18,11 @@ WANT = {
 }
 
 
-def check_rank_predicates(cx, rule):
+def check_rank_predicates(cx, rule, names=None):
+    """names: the predicates the calling property's handlers actually use"""
     for name, want in WANT.items():
+        if names is not None and name not in names:
+            continue
         fn = cx.fn(name, 'ChannelUserModes')
         w = cx.walk(fn, args=[ME])
         rule.instance('%s body' % name)
